@@ -12,8 +12,8 @@ for d in seeded/*/; do
   fi
   git -C $REPO reset -q
   out=$(VERIF_SEED=$seed ./check $prop quick 2>&1)
-  n=$(echo "$out" | grep -c "^VIOLATION")
+  n=$(echo "$out" | grep -c "^VIOLATION"); mach=$(echo "$out" | grep -c "MACHINERY")
   rules=$(echo "$out" | grep -oE "^  C[0-9]+/[a-z0-9-]+" | sort -u | tr -d ' ' | tr '\n' ' ')
-  echo "$id $prop violations=$n $rules"
+  echo "$id $prop violations=$n machinery=$mach $rules"
   git -C $REPO checkout -q HEAD -- .
 done
